@@ -472,10 +472,17 @@ pixman_transform_init_scale (struct pixman_transform *t,
     t->matrix[2][2] = F (1);
 }
 
-static pixman_fixed_t
-fixed_inverse (pixman_fixed_t x)
+static pixman_bool_t
+fixed_inverse (pixman_fixed_t x, pixman_fixed_t *inverse)
 {
-    return (pixman_fixed_t) ((((pixman_fixed_48_16_t) F (1)) * F (1)) / x);
+    pixman_fixed_48_16_t v = (((pixman_fixed_48_16_t) F (1)) * F (1)) / x;
+
+    /* 1/x does not fit 16.16 when |x| <= 2 * pixman_fixed_e */
+    if (v > pixman_max_fixed_48_16 || v < pixman_min_fixed_48_16)
+	return FALSE;
+
+    *inverse = (pixman_fixed_t) v;
+    return TRUE;
 }
 
 PIXMAN_EXPORT pixman_bool_t
@@ -498,8 +505,12 @@ pixman_transform_scale (struct pixman_transform *forward,
     
     if (reverse)
     {
-	pixman_transform_init_scale (&t, fixed_inverse (sx),
-	                             fixed_inverse (sy));
+	pixman_fixed_t isx, isy;
+
+	if (!fixed_inverse (sx, &isx) || !fixed_inverse (sy, &isy))
+	    return FALSE;
+
+	pixman_transform_init_scale (&t, isx, isy);
 	if (!pixman_transform_multiply (reverse, reverse, &t))
 	    return FALSE;
     }
